@@ -1747,7 +1747,11 @@ func (s *BgpServer) handleFSMMessage(peer *peer, e *fsmMsg) {
 		conf.State.SessionState = oc.IntToSessionStateMap[int(nextState)]
 		peer.fsm.pConf.Update(&conf)
 
-		nextStateIdle := conf.GracefulRestart.State.PeerRestarting && nextState == bgp.BGP_FSM_IDLE
+		// A restarting peer's failed attempt to come back (the connection breaks or
+		// the OPEN is refused before Established) does not end its restart: only
+		// the restart timer or the operator does.
+		nextStateIdle := conf.GracefulRestart.State.PeerRestarting && nextState == bgp.BGP_FSM_IDLE &&
+			e.StateReason != nil && (e.StateReason.Type == fsmRestartTimerExpired || e.StateReason.Type == fsmAdminDown)
 		peer.fsm.lock.Unlock()
 
 		// PeerDown
